@@ -4,6 +4,8 @@ import (
 	"sync/atomic"
 
 	"cvssmc/internal/ev"
+	"cvssmc/internal/lang"
+	"cvssmc/internal/lib"
 	"cvssmc/internal/oracle"
 	"cvssmc/internal/spec"
 )
@@ -109,6 +111,57 @@ func enumV3BaseSuffixes(r *ev.Run, P props) {
 	r.Add("distinct_nontrivial", n)
 }
 
+// viewsAfterInstalments: the library's decoders accept a vector in instalments (a second Decode
+// on the same object that supplies only metrics it does not hold yet).  Decode the base part,
+// query every view, decode the rest, and compare the views with independent lower-level decodes
+// of the combined vector.
+func viewsAfterInstalments(r *ev.Run) {
+	var n int64
+	for _, ver := range []int{3, 2} {
+		for _, bg := range scoreBackgrounds(ver) {
+			for level := 1; level < 3; level++ {
+				full := lang.Project(ver, level, bg.tok)
+				for split := 0; split < level; split++ {
+					first := lang.Project(ver, split, full)
+					rest := map[string]string{}
+					for k, v := range full {
+						if _, ok := first[k]; !ok {
+							rest[k] = v
+						}
+					}
+					d := lib.New(ver, level)
+					s1, s2 := canonicalWritten(ver, level, bg.ver, first), canonicalWritten(ver, level, bg.ver, rest)
+					lib.Decode(d, s1)
+					for q := 0; q <= level; q++ {
+						lib.Observe(lib.Sub(d, q))
+					}
+					obj, err, pan := lib.Decode(d, s2)
+					n++
+					if pan != "" {
+						r.Violate(ev.Violation{Kind: "second-decode-panics", Case: map[string]any{"cvss": ver, "decoder": spec.LevelNames[level], "first_input": s1, "second_input_on_the_same_decoder": s2}, Observed: pan, Expected: "no panic"})
+						continue
+					}
+					if err != nil || obj == nil {
+						continue // not accepted in instalments: nothing to compare
+					}
+					for lv := 0; lv < level; lv++ {
+						ps := canonicalWritten(ver, lv, bg.ver, lang.Project(ver, lv, full))
+						ind, ierr, _ := lib.DecodeNew(ver, lv, ps)
+						if ierr != nil || ind == nil {
+							continue
+						}
+						if a, b := lib.Observe(lib.Sub(obj, lv)), lib.Observe(ind); a != b {
+							r.Violate(ev.Violation{Kind: "view-differs-after-instalment-decode", Case: map[string]any{"cvss": ver, "decoder": spec.LevelNames[level], "first_input": s1, "then_every_view_queried_then_second_input_on_the_same_decoder": s2, "view": spec.LevelNames[lv], "projection": ps},
+								Observed: a.String(), Expected: b.String() + "  (independent decode of the projection)"})
+						}
+					}
+				}
+			}
+		}
+	}
+	r.Add("instalment_decodes", n)
+}
+
 func init() {
 	// C06: grid and bands at every level of both versions
 	register("C06", "exploration", func(r *ev.Run, thorough bool) {
@@ -165,12 +218,13 @@ func init() {
 		} else {
 			enumV3EnvProduct(r, P, nil, 37)
 		}
-		enumV2Temporal(r, P, nil, []int{1, 2}, []map[string]string{{}, {"CDP": "LM", "TD": "M", "CR": "H", "IR": "L", "AR": "ND"}, {"CDP": "N", "TD": "N", "CR": "L", "IR": "L", "AR": "L"}})
+		enumV2Temporal(r, P, nil, []int{1, 2}, []map[string]string{{}, {"CDP": "LM", "TD": "M", "CR": "H", "IR": "L", "AR": "ND"}, {"CDP": "N", "TD": "N", "CR": "L", "IR": "L", "AR": "L"}, {"CDP": "H", "TD": "H", "CR": "M", "IR": "ND", "AR": "M"}})
 		if thorough {
 			dpathSliceV2(r, P, nil, func(gi int) bool { return gi%4 == 0 })
 		} else {
 			dpathSliceV2(r, P, nil, func(gi int) bool { return gi%240 == 0 })
 		}
+		r.Phase("views after instalment decoding", func() { viewsAfterInstalments(r) })
 		r.Set("exhaustive", false)
 		r.Set("complete_subdomains", "v3 base x temporal (518,400) at the temporal decoder and at the environmental decoder x 20 environmental suffixes; v2 base x temporal (73,629) at both decoders x 3 suffixes; thorough adds all 2,211,840 v3 environmental combinations x 3 base+temporal vectors and a quarter of the v2 141M domain")
 		r.Set("rule", "for every vector: the object returned by BaseMetrics()/TemporalMetrics() is pointer-identical on repeated calls and to the embedded field, and its score, severity, validity, encoding, string and complete reflective state equal those of an independent lower-level decode of the projected vector; distinct by token set")
@@ -182,6 +236,7 @@ func init() {
 		P.scoreLevel = 0
 		st := newStats()
 		enumV3Base(r, P, st)
+		r.Phase("score sequences", func() { scoreSequences(r, 3, 0) })
 		graphC01(r, thorough)
 		st.report(r, 3)
 		r.Set("oracle_ambiguous_roundings", int64(oracle.GetV3().Ambiguous))
